@@ -10,7 +10,8 @@
 //     RESIZE H W C oh ow              ResizeLayer<> (spline)
 //     RBF nin nout tc tw g_1..g_nout  RBFLayer, setGamma(g), setTrainingParameters(tc, tw)
 //     CMAC nin nout tilings tiles lo hi
-//     KEXP kern gamma bs nb nin nout off  basis(nb*nin)   KernelExpansion<RealVector>, kern 0 linear 1 Gaussian(gamma); basis in batches of bs
+//     KEXP kern gamma bs nb nin nout off  basis(nb*nin)   KernelExpansion<RealVector>, kern 0 linear, 1 Gaussian(gamma), d >= 2 PolynomialKernel(degree d, offset gamma); basis in batches of bs
+//     KEXB kern gamma k s_1..s_k nin nout off basis(sum(s)*nin)   the same with the basis in k explicitly given batches of sizes s_i
 //     ENS m (w LIN act off nin nout p..)*m              Ensemble<LinearModel<>*> (each member with its own inline parameters)
 //     NET k (flag <spec> [inline params if flag = 0])*k  ConcatenatedModel; flag = optimize
 //     CLS off nin nout nb b_1..b_nb   Classifier<LinearModel<> > with bias vector of size nb (0 = none)   (outputs are class labels)
@@ -45,6 +46,7 @@
 #include <shark/Models/Kernels/KernelExpansion.h>
 #include <shark/Models/Kernels/GaussianRbfKernel.h>
 #include <shark/Models/Kernels/LinearKernel.h>
+#include <shark/Models/Kernels/PolynomialKernel.h>
 #include <shark/Models/Ensemble.h>
 
 using namespace shark;
@@ -114,11 +116,27 @@ static M* parseModel(Tok& t, Pool& pool) {
 	else if (k == "KEXP") {
 		std::size_t kern = t.nat(); double gamma = t.num(); std::size_t bs = t.nat(), nb = t.nat(), nin = t.nat(), nout = t.nat(), off = t.nat();
 		std::shared_ptr<AbstractKernelFunction<RealVector> > kf;
-		if (kern == 0) kf.reset(new LinearKernel<>()); else kf.reset(new GaussianRbfKernel<>(gamma));
+		if (kern == 0) kf.reset(new LinearKernel<>()); else if (kern == 1) kf.reset(new GaussianRbfKernel<>(gamma)); else kf.reset(new PolynomialKernel<>((unsigned int) kern, gamma, false, false));
 		pool.kernels.push_back(kf);
 		std::vector<RealVector> pts(nb, RealVector(nin));
 		for (std::size_t i = 0; i < nb; ++i) for (std::size_t j = 0; j < nin; ++j) pts[i](j) = t.num();
 		Data<RealVector> basis = createDataFromRange(pts, bs);
+		m = new KernelExpansion<RealVector>(kf.get(), basis, off != 0, nout);
+	}
+	else if (k == "KEXB") {
+		// the basis in explicitly given batches: KEXB kern gamma nbatches s_1 .. s_k nin nout off basis(sum(s) * nin)
+		std::size_t kern = t.nat(); double gamma = t.num(); std::size_t nbat = t.nat();
+		std::vector<std::size_t> sz(nbat); for (std::size_t i = 0; i < nbat; ++i) sz[i] = t.nat();
+		std::size_t nin = t.nat(), nout = t.nat(), off = t.nat();
+		std::shared_ptr<AbstractKernelFunction<RealVector> > kf;
+		if (kern == 0) kf.reset(new LinearKernel<>()); else if (kern == 1) kf.reset(new GaussianRbfKernel<>(gamma)); else kf.reset(new PolynomialKernel<>((unsigned int) kern, gamma, false, false));
+		pool.kernels.push_back(kf);
+		Data<RealVector> basis(nbat);
+		for (std::size_t bi = 0; bi < nbat; ++bi) {
+			RealMatrix bm(sz[bi], nin);
+			for (std::size_t i = 0; i < sz[bi]; ++i) for (std::size_t j = 0; j < nin; ++j) bm(i, j) = t.num();
+			basis.batch(bi) = bm;
+		}
 		m = new KernelExpansion<RealVector>(kf.get(), basis, off != 0, nout);
 	}
 	else if (k == "ENS") {
